@@ -57,6 +57,9 @@ class WindyGridWorld(GridMDP):
 
     @method_cache
     def next_state_reward_dist(self, s, a):
+        if self.is_absorbing(s):
+            # goal states are terminal: a zero-reward self-loop
+            return DictDistribution({(s, 0): 1})
         nsr_dist = DictDistribution({(s, 0): 1})
         nsr_dist = nsr_dist.chain(lambda nsr: self._effect_of_wind(*nsr))
         nsr_dist = nsr_dist.chain(lambda nsr: self._effect_of_action(*nsr, a))
